@@ -46,7 +46,7 @@ contract(FR, "replace_outer", {"from_": "ResolvedPos", "to": "ResolvedPos", "sli
          may_raise={"ReplaceError": "True"},
          trusted="C02 / C01 (bounded): the recursive rebuild along the two resolved positions; every node it builds around new content goes through close (proved above)",
          props=P)
-GUARD = "slice.open_start > from_.depth or from_.depth - slice.open_start != to.depth - slice.open_end"
+GUARD = "from_.pos > to.pos or slice.open_start > from_.depth or from_.depth - slice.open_start != to.depth - slice.open_end"
 contract(FR, "replace", {"from_": "ResolvedPos", "to": "ResolvedPos", "slice": "Slice"}, returns="Node",
          raises={"ReplaceError": GUARD}, may_raise={"ReplaceError": "True"},
          props=P + ["C02"])
@@ -82,7 +82,11 @@ from pyvc import api as _api  # noqa: E402
 _ns = _api.CONTRACTS["Node.slice"]
 _ns.defines = ["result.open_start == sl_os(self, from_, self.content.size if to is None else to)",
                "result.open_end == sl_oe(self, from_, self.content.size if to is None else to)"]
-_ns.may_raise = {"ValueError": "True"}
+_ns.may_raise = {"ValueError": "from_ < 0 or from_ > self.content.size or (to is not None and (to < 0 or to > self.content.size))"}
+# total: a step decoded from a peer's JSON may ask for any range; the size equation is promised for well-formed ranges only
+_ns.requires = []
+_ns.cases[0]["ensures"] = ["(0 <= from_ and (to is None or (from_ <= to and to <= self.content.size))) ==> "
+                           "result.content.size - result.open_start - result.open_end == (self.content.size if to is None else to) - from_"]
 
 contract(FR, "Slice.insert_at", {"self": "Slice", "pos": "int", "fragment": "Fragment"}, returns="opt[Slice]",
          may_raise={"ValueError": "True"},
